@@ -79,6 +79,20 @@ static int h_tcp_poll(struct pollfd *fds, nfds_t n, int timeout) {
         }
         {
             char *ev = h_script[h_pos++];
+            if (ev[0] == 'b') { /* a burst: the writes that follow are all made before the reader gets to read */
+                int any = 0;
+                while (h_pos < h_nscript && h_script[h_pos][0] == 'w') {
+                    int l;
+                    uint8_t *b = hx(h_script[h_pos++] + 2, &l);
+                    if (l > 0 && write(h_peer, b, l) != l)
+                        abort();
+                    (free)(b);
+                    any |= l > 0;
+                }
+                if (any)
+                    poll(fds, n, 1000);
+                continue;
+            }
             if (ev[0] == 'w' || ev[0] == 'W') {
                 int l;
                 uint8_t *b = hx(ev + 2, &l);
